@@ -14,7 +14,7 @@ RULE = ("Generated: portfolios (a) without inter-temporal coupling (contracts wi
         "capacities, transports, multi-commodity contracts, order books with single-step orders, asset windows) and "
         "(b) plus storages with start level = end level (no inflow together with holding cost); per-asset wacc in "
         "{0,.05,.4}; grids 3-16 steps x freq {h,2h,4h,6h,d,15min} x zone incl. DST dates x start hour; interval size "
-        "in {6h,7h,12h,d,2d,W} (horizon aligned or not, partial first/last interval). Oracle: split value = sum of the "
+        "in {6h,7h,12h,d,2d,W} (horizon aligned or not, partial first/last interval); in 1 of 5 every asset is windowed away from a range of steps (steps or whole intervals without any active asset). Oracle: split value = sum of the "
         "interval optima (each interval problem re-solved by scipy-HiGHS); the (asset,variable,node,step) keys of the "
         "split mapping are a bijection onto those of the unsplit problem and all steps lie on the original grid; the "
         "split solution transferred to the unsplit problem satisfies all its bounds and rows; (a) |V_split - "
@@ -60,7 +60,11 @@ def _strategy(draw):
             a["start"] = a["end"] = None
         assets.append(a)
     assets += gen.markets(cx, draw=draw)
-    return {"grid": g, "prices": cx.prices, "assets": assets, "split": draw(st.sampled_from(SPLITS)), "category": cat}
+    spec = {"grid": g, "prices": cx.prices, "assets": assets, "split": draw(st.sampled_from(SPLITS)), "category": cat}
+    if draw(st.integers(0, 4)) == 0:
+        # phases that do not touch: steps (possibly whole intervals) in which no asset is active
+        spec["gap"] = gen.make_gap(draw, spec)
+    return spec
 
 
 def strategy(tier):
@@ -69,7 +73,7 @@ def strategy(tier):
 
 def check(spec):
     out = Outcome()
-    out.label("category:" + spec["category"], "interval:" + spec["split"])
+    out.label("category:" + spec["category"], "interval:" + spec["split"], "gap" if spec.get("gap") else None)
     g = spec["grid"]
     if g.get("tz") and not (build._wall_ok(tl.end(g), g["tz"]) and build._wall_ok(tl.point(g, 0), g["tz"])):
         return out.drop("ambiguous_wall_time")     # pandas cannot build the interval range to such an end
